@@ -311,6 +311,24 @@ def W():
     return "; ".join(out) or None
 
 
+def X():
+    """allow_none set on a base cells / space after derivation or instantiation is not passed on"""
+    m = _reset()
+    A_ = m.new_space("A", formula="lambda p: None")
+    A_.new_cells("c", formula="def c(x):\n    return None if x == 1 else x")
+    B_ = m.new_space("B", bases=A_)
+    inst = A_[1]
+    A_.c.allow_none = True
+    out = []
+    for what, fn in (("B.c(1)", lambda: B_.c(1)), ("A[1].c(1)", lambda: A_[1].c(1))):
+        try:
+            if fn() is not None:
+                out.append("%s is not None" % what)
+        except Exception as e:     # noqa
+            out.append("%s raised %s although A.c(1) returns None" % (what, type(mx.get_error()).__name__))
+    return "; ".join(out) or None
+
+
 # ------------------------------------------------------------------ C15
 def M():
     """export: comprehension following a nested class scope"""
@@ -428,7 +446,7 @@ def R():
     return None
 
 
-ALL = [A, F, G, U, I, J, K, L, T, B, D, E, a, b, c, H, W, M, N, O, P, Q, R]
+ALL = [A, F, G, U, I, J, K, L, T, B, D, E, a, b, c, H, W, X, M, N, O, P, Q, R]
 
 
 if __name__ == "__main__":
